@@ -597,6 +597,11 @@ top:
 			lexer.AppendToken(lexer.Token(TokenTildeAt, ""))
 		} else {
 			lexer.AppendToken(lexer.Token(TokenTilde, ""))
+			if r == '(' || r == '[' || r == '{' {
+				// ~(expr): the bracket opens the unquoted expression, lex it normally
+				lexer.state = LexerNormal
+				goto top
+			}
 			lexer.buffer.WriteRune(r)
 		}
 		lexer.state = LexerNormal
